@@ -167,11 +167,9 @@ class DataFrame:
         """
         if not isinstance(attributes, (list, tuple)):
             attributes = [attributes]
-        attribute_indices = []
-        new_header = attributes
-        for index, attribute in enumerate(self._schema):
-            if attribute in attributes:
-                attribute_indices.append(index)
+        column_names = list(self._schema)
+        new_header = [attribute for attribute in attributes if attribute in column_names]
+        attribute_indices = [column_names.index(attribute) for attribute in new_header]
 
         def _inner_projection():
             for tup in self._rows:
